@@ -2,6 +2,7 @@
 //! functions of coq/theories/ScalarSpec.v.
 //!   c11.u64 / c11.i64 / c11.bool <hex>   value | ERR:<class>
 //!   c11.f64 <hex>                        16 hex digits | ERR:4:<bits of the PrecisionLoss payload> | ERR:<class>
+//!   c11.u64t <hex> <start> / c11.i64t <hex>   the prefix parsers: "<value> <hex of the unread rest>" | ERR:<class>
 //!   c11.at <hex> <off>                   the four conversions on a slice that starts `off` bytes after an
 //!                                        8-byte aligned address (and is followed by non-digit garbage)
 //!   c11.pub <hexa> <hexb>                as_bytes | is_ascii | Display | Debug | == | Copy/Clone
@@ -76,6 +77,14 @@ pub fn dispatch(kind: &str, a: &[&str]) -> Option<String> {
         ("c11.i64", [h]) => i64_s(Scalar::new(&unhex(h))),
         ("c11.bool", [h]) => bool_s(Scalar::new(&unhex(h))),
         ("c11.f64", [h]) => f64_full(Scalar::new(&unhex(h))),
+        ("c11.u64t", [h, st]) => match jomini::verif_hooks::to_u64_t(&unhex(h), st.parse::<u64>().ok()?) {
+            Ok((v, r)) => format!("{} {}", v, hex(r)),
+            Err(e) => scalar_err(&e),
+        },
+        ("c11.i64t", [h]) => match jomini::verif_hooks::to_i64_t(&unhex(h)) {
+            Ok((v, r)) => format!("{} {}", v, hex(r)),
+            Err(e) => scalar_err(&e),
+        },
         ("c11.at", [h, off]) => {
             let d = unhex(h);
             let off: usize = off.parse().ok()?;
